@@ -36,6 +36,7 @@ type CStep struct {
 	Delay    int64 `json:"delay_ns"` // pause before the receive
 	Hold     int64 `json:"hold_ns"`  // time the slice is kept before release (no-copy) / before the next step
 	Scribble bool  `json:"scribble"` // copy mode: overwrite the received slice with garbage after the hold
+	Append   int   `json:"append,omitempty"` // copy mode: append that many garbage elements to the received slice after the hold
 }
 
 // StopPlan (v1 only): Stop() or context cancellation injected into the run.
@@ -454,6 +455,12 @@ func execute1(t *testing.T, s Script, leakScan bool, budget time.Duration) Trace
 				mu.Lock()
 				tr.Outs[idx].Scribble = true
 				mu.Unlock()
+			}
+			if c.Append > 0 && !s.NoCopy {
+				// the slice is the consumer's own: growing it must stay invisible to everybody else
+				for i := 0; i < c.Append; i++ {
+					sl = append(sl, -2000000-i)
+				}
 			}
 			if s.NoCopy {
 				mu.Lock()
